@@ -34,21 +34,40 @@ def freq_from_data(a, c):
 
 
 def molecular(A):
+    """twice the average identity-by-state probability, every allele pair literally drawn; the identical pairs are
+    counted as integers (every marker offers the same number c_i * c_j of pairs) and divided once"""
     n, m = len(A), len(A[0])
     out = [[None] * n for _ in range(n)]
     for i in range(n):
-        for j in range(n):
-            tot = Fraction(0)
+        for j in range(i, n):
+            same = 0
+            pairs = 0
             for l in range(m):
-                same = 0
-                pairs = 0
                 for u in A[i][l]:
                     for v in A[j][l]:
                         pairs += 1
                         same += 1 if u == v else 0
-                tot += 2 * Fraction(same, pairs)
-            out[i][j] = tot / m
+            # mean over markers of 2 * same_l / pairs_l with pairs_l = pairs / m for every marker
+            out[i][j] = out[j][i] = Fraction(2 * same, pairs)
     return out
+
+
+def row_types(rows):
+    """-> (distinct rows in order of first appearance, index of every row's type); the estimators' entry (i, j) depends
+    on the data only through the genotype rows of i and j (and on frequencies that are passed separately), so large
+    populations made of few distinct genotype rows are evaluated once per pair of types and expanded"""
+    reps, where, tmap = [], {}, []
+    for r in rows:
+        k = repr(r)
+        if k not in where:
+            where[k] = len(reps)
+            reps.append(r)
+        tmap.append(where[k])
+    return reps, tmap
+
+
+def expand(Gt, tmap):
+    return [[Gt[ti][tj] for tj in tmap] for ti in tmap]
 
 
 def _lcm_den(vals):
@@ -94,7 +113,7 @@ def yang(a, c, p):
     m = len(p)
     S = 1
     for x in s:
-        S *= x
+        S = S * x // math.gcd(S, x)                     # least common multiple of the per-marker denominators
     co = [S // x for x in s]
     return _sym(len(a), lambda i, j: Fraction(sum(Zs[i][l] * Zs[j][l] * co[l] for l in range(m)), m * S))
 
